@@ -30,6 +30,31 @@ int main(int argc, char** argv) {
     }
     return 0;
   }
+  if (cmd == "dayorder") {
+    // the same conversions in other orders than ascending: descending, every day followed by the day 65536 earlier / later
+    // (the two share their low 16 bits), and a fixed pseudo-random permutation -- the answer may not depend on the call before
+    long lo = days_from_civil(1873, 1, 1), hi = days_from_civil(2127, 12, 31), n = 0, bad = 0;
+    auto probe = [&](long d) {
+      if (d < lo || d > hi) return;
+      LocalDate ld = LocalDate::forEpochDays((acetime_t) d);
+      Civil c = civil_from_days(d);
+      n++;
+      if (ld.isError() || ld.year() != c.y || ld.month() != c.m || ld.day() != c.d || (long) ld.toEpochDays() != d) {
+        if (bad < 20) printf("{\"d\":%ld,\"got\":[%d,%d,%d],\"want\":[%ld,%d,%d]}\n", d, ld.year(), ld.month(), ld.day(), c.y, c.m, c.d);
+        bad++;
+      }
+      LocalDate ud = LocalDate::forUnixDays((acetime_t) (d + 10957));
+      if ((long) ud.toEpochDays() != d) { if (bad < 20) printf("{\"d\":%ld,\"unix\":%ld}\n", d, (long) ud.toEpochDays()); bad++; }
+      LocalDate es = LocalDate::forEpochSeconds((acetime_t) (d >= -24855 && d <= 24855 ? d * 86400 + 77 : 0));
+      if (d >= -24855 && d <= 24855 && (long) es.toEpochDays() != d) { if (bad < 20) printf("{\"d\":%ld,\"viaSeconds\":%ld}\n", d, (long) es.toEpochDays()); bad++; }
+    };
+    for (long d = hi; d >= lo; d--) probe(d);
+    for (long d = lo; d <= hi; d++) { probe(d); probe(d - 65536); probe(d); probe(d + 65536); probe(d - 32768); probe(d + 256); }
+    unsigned long x = 12345;
+    for (long k = 0; k < 400000; k++) { x = x * 6364136223846793005UL + 1442695040888963407UL; probe(lo + (long) ((x >> 33) % (unsigned long) (hi - lo + 1))); }
+    printf("{\"done\":1,\"n\":%ld,\"bad\":%ld}\n", n, bad);
+    return 0;
+  }
   if (cmd == "instants" && argc >= 5) {
     long t0 = atol(argv[2]), t1 = atol(argv[3]), stride = atol(argv[4]);
     long n = 0, bad = 0;
